@@ -79,7 +79,7 @@ def run(ctx, res):
     if f is None:
         raise BrokenAnalysis("my_crc32c_sse42 not compiled in this configuration")
     res.saw(f)
-    ev = APE.run(prog, cg, f, bound=1)
+    ev = APE.run(prog, cg, f, bound=APE.BOUND)
     bufp, lenp = f.params[0]["name"], f.params[1]["name"]
     cases = set()
     for p in ev.paths:
